@@ -77,6 +77,15 @@ class Ctx:
 
     def account(self, domain, op, impl, model, spec):
         self.evaluations += 1
+        if " ARGMUT:" in impl:
+            impl, what = impl.split(" ARGMUT:", 1)
+            key = "%s:argument-overwritten" % what.split(" ", 1)[0]
+            if self.is_known(key) is None:
+                self.violations.append(dict(kind="violation", key=key, domain=domain, op=op, impl=impl + " ARGMUT:" + what,
+                                            model=model, spec=spec,
+                                            why="the implementation wrote into a slice it was given as an input-only argument"))
+            if " ALIASED:" in what:
+                impl += " ALIASED:" + what.split(" ALIASED:", 1)[1]
         if " ALIASED:" in impl:
             # retention check of the harness: what an EARLIER call handed out changed while this op ran
             impl, what = impl.split(" ALIASED:", 1)
